@@ -70,33 +70,63 @@ Theorem C06_match_spec_root_file : forall c r uri, init_request_path c = Ok r ->
 Proof. intros c r uri H. apply prepare_matches_root_file. exact (init_wf c r H). Qed.
 Print Assumptions C06_match_spec_root_file.
 
-(* lookup: one find_system call with (lookup_key, transform value); get_data with exactly the id returned;
-   the template context is request_info plus id/data of that system, or request_info alone *)
-Theorem C06_lookup_exact : forall T FS GD c r x v log p tc,
-  extract r = true -> raw_value x = Some v -> eqb_str (c_lookup_key c) SYSTEM_ID = false ->
+(* lookup: one find_system call with (lookup_key, transformed value); get_data with exactly the id returned;
+   the template context is request_info plus id/data of that system, or request_info alone.
+   T v = Some tv: the transformation chain accepts the value (tv may stand for a non-str result). *)
+Theorem C06_lookup_exact : forall T FS GD c r x v tv log p tc,
+  extract r = true -> raw_value x = Some v -> T v = Some tv -> eqb_str (c_lookup_key c) SYSTEM_ID = false ->
   handle_plan T FS GD c r x = (log, PServe p (Some tc)) ->
-  match FS (c_lookup_key c) (T v) with
-  | FFound i => log = [CFind (c_lookup_key c) (T v); CGet i] /\ t_id tc = Some i /\ t_data tc = GD i
-  | FNone => log = [CFind (c_lookup_key c) (T v)] /\ c_continue c = true /\ t_id tc = None /\ t_data tc = None
-  | FRaise => log = [CFind (c_lookup_key c) (T v)] /\ c_continue c = true /\ c_ds_ignore c = true /\
+  match FS (c_lookup_key c) tv with
+  | FFound i => log = [CFind (c_lookup_key c) tv; CGet i] /\ t_id tc = Some i /\ t_data tc = gd_data (GD i) /\
+                GD i <> GRaiseBase /\ (GD i = GRaise -> c_ds_ignore c = true)
+  | FNone => log = [CFind (c_lookup_key c) tv] /\ c_continue c = true /\ t_id tc = None /\ t_data tc = None
+  | FRaise => log = [CFind (c_lookup_key c) tv] /\ c_continue c = true /\ c_ds_ignore c = true /\
               t_id tc = None /\ t_data tc = None
+  | FRaiseBase => False
   end.
 Proof. exact lookup_exact_served. Qed.
 Print Assumptions C06_lookup_exact.
 
-Theorem C06_lookup_exact_system_id : forall T FS GD c r x v log p tc,
-  extract r = true -> raw_value x = Some v -> eqb_str (c_lookup_key c) SYSTEM_ID = true ->
+Theorem C06_lookup_exact_system_id : forall T FS GD c r x v tv log p tc,
+  extract r = true -> raw_value x = Some v -> T v = Some tv -> eqb_str (c_lookup_key c) SYSTEM_ID = true ->
   handle_plan T FS GD c r x = (log, PServe p (Some tc)) ->
-  log = [CGet (T v)] /\ t_id tc = Some (T v) /\ t_data tc = GD (T v).
+  log = [CGet tv] /\ t_id tc = Some tv /\ t_data tc = gd_data (GD tv) /\ GD tv <> GRaiseBase.
 Proof. exact lookup_exact_system_id. Qed.
 Print Assumptions C06_lookup_exact_system_id.
 
-Theorem C06_lookup_failure_not_found : forall T FS GD c r x v,
-  extract r = true -> raw_value x = Some v -> eqb_str (c_lookup_key c) SYSTEM_ID = false ->
-  c_continue c = false -> FS (c_lookup_key c) (T v) = FNone ->
-  handle_plan T FS GD c r x = ([CFind (c_lookup_key c) (T v)], PNotFound).
+Theorem C06_lookup_failure_not_found : forall T FS GD c r x v tv,
+  extract r = true -> raw_value x = Some v -> T v = Some tv -> eqb_str (c_lookup_key c) SYSTEM_ID = false ->
+  c_continue c = false -> FS (c_lookup_key c) tv = FNone ->
+  handle_plan T FS GD c r x = ([CFind (c_lookup_key c) tv], PNotFound).
 Proof. exact lookup_failure_not_found. Qed.
 Print Assumptions C06_lookup_failure_not_found.
+
+(* the chain rejects the value (raise_error_if_malformed ...): the exception is the result of this request, the data
+   source is not called - and, handle_plan being a function of this request alone, nothing of an earlier request
+   (a previous value, its transformation, its system) can show up in a later one *)
+Theorem C06_transform_raises_propagates : forall T FS GD c r x v,
+  extract r = true -> raw_value x = Some v -> T v = None ->
+  handle_plan T FS GD c r x = ([], PRaise).
+Proof. exact transform_raises_propagates. Qed.
+Print Assumptions C06_transform_raises_propagates.
+
+(* exceptions of the data source: whatever their class, those derived from Exception are a failed lookup when
+   data_source_error_action is ignore/warn (with continue: template with neither id nor data); those derived from
+   BaseException only always propagate *)
+Theorem C06_exception_ignored_continue : forall T FS GD c r x v tv,
+  extract r = true -> raw_value x = Some v -> T v = Some tv -> eqb_str (c_lookup_key c) SYSTEM_ID = false ->
+  FS (c_lookup_key c) tv = FRaise -> c_ds_ignore c = true -> c_continue c = true -> c_template c = true ->
+  exists plan, handle_plan T FS GD c r x = ([CFind (c_lookup_key c) tv], plan) /\
+    (plan = PNotFound \/ exists p, plan = PServe p (Some {| t_id := None; t_data := None |})).
+Proof. exact exception_ignored_continue. Qed.
+Print Assumptions C06_exception_ignored_continue.
+
+Theorem C06_base_exception_propagates : forall T FS GD c r x v tv,
+  extract r = true -> raw_value x = Some v -> T v = Some tv -> eqb_str (c_lookup_key c) SYSTEM_ID = false ->
+  FS (c_lookup_key c) tv = FRaiseBase ->
+  handle_plan T FS GD c r x = ([CFind (c_lookup_key c) tv], PRaise).
+Proof. exact base_exception_propagates. Qed.
+Print Assumptions C06_base_exception_propagates.
 
 Theorem C06_no_lookup_no_calls : forall T FS GD c r x log p tc,
   extract r = false -> handle_plan T FS GD c r x = (log, PServe p (Some tc)) ->
@@ -140,7 +170,7 @@ Theorem C06_holds_refuted_case_sensitive :
   exists k, k_old2f k = true /\ holds k (run_model k) <> [].
 Proof.
   exists {| k_tftp := true; k_old2f := true; k_cfg := cfg_a; k_tpre := []; k_tsuf := []; k_ttable := None; k_fs := [];
-            k_gdraise := []; k_gdempty := []; k_files := [[SL; 102]]; k_uri := [PCT; 50; 70; 97] |}.
+            k_gdraise := []; k_gdraise_base := []; k_gdempty := []; k_files := [[SL; 102]]; k_uri := [PCT; 50; 70; 97] |}.
   split; [reflexivity | vm_compute; discriminate].
 Qed.
 
@@ -158,7 +188,7 @@ Example C06_nonvacuous :
   prepare_context cfg_nv rp_nv (bytes_of_string "/a/pre-%41-suf/b/x?q")
     = {| matches := true; raw_value := Some [65]; extra_path := Some [SL; 120] |} /\
   match_rel cfg_nv rp_nv (uri_path (bytes_of_string "/a/pre-%41-suf/b/x?q")) [65] [SL; 120] /\
-  handle_plan (fun v => v) (fun _ _ => FFound [115]) (fun _ => Some [100]) cfg_nv rp_nv
+  handle_plan (fun v => Some v) (fun _ _ => FFound [115]) (fun _ => GOk [100]) cfg_nv rp_nv
     {| matches := true; raw_value := Some [65]; extra_path := Some [SL; 120] |}
     = ([CFind [107] [65]; CGet [115]],
        PServe (bytes_of_string "/srv/x") (Some {| t_id := Some [115]; t_data := Some [100] |})).
